@@ -1,0 +1,82 @@
+//! Verification hooks (only built with `--cfg woodpile_verif`): a
+//! registry of the address ranges of live arena chunks, updated where
+//! chunks are created and dropped, and a read-only projection of an
+//! [`crate::OwningIovec`]'s internal state.
+use std::sync::Mutex;
+
+/// A chunk creation or destruction, in program order.
+#[derive(Clone, Copy, Debug)]
+pub struct ChunkEvent {
+    /// `true` for creation, `false` for destruction.
+    pub created: bool,
+    /// Unique id (never reused).
+    pub id: u64,
+    /// Address of the first byte.
+    pub base: usize,
+    /// Size in bytes.
+    pub len: usize,
+}
+
+struct Registry {
+    next_id: u64,
+    live: Vec<(u64, usize, usize)>,
+    events: Vec<ChunkEvent>,
+}
+
+static REGISTRY: Mutex<Registry> = Mutex::new(Registry {
+    next_id: 1,
+    live: Vec::new(),
+    events: Vec::new(),
+});
+
+fn registry() -> std::sync::MutexGuard<'static, Registry> {
+    REGISTRY.lock().unwrap_or_else(|e| e.into_inner())
+}
+
+pub(crate) fn chunk_created(base: usize, len: usize) {
+    let mut reg = registry();
+    let id = reg.next_id;
+    reg.next_id += 1;
+    reg.live.push((id, base, len));
+    reg.events.push(ChunkEvent { created: true, id, base, len });
+}
+
+pub(crate) fn chunk_dropped(base: usize, len: usize) {
+    let mut reg = registry();
+    let id = match reg.live.iter().position(|c| c.1 == base && c.2 == len) {
+        Some(idx) => reg.live.swap_remove(idx).0,
+        None => 0,
+    };
+    reg.events.push(ChunkEvent { created: false, id, base, len });
+}
+
+/// Returns `(id, base, len)` for every live chunk.
+#[must_use]
+pub fn live_chunks() -> Vec<(u64, usize, usize)> {
+    registry().live.clone()
+}
+
+/// Returns and clears the chunk events recorded since the last call.
+#[must_use]
+pub fn take_events() -> Vec<ChunkEvent> {
+    std::mem::take(&mut registry().events)
+}
+
+/// Read-only projection of an [`crate::OwningIovec`].
+#[derive(Clone, Debug, Default)]
+pub struct Projection {
+    /// `(address, length)` of every buffered slice, stable or not.
+    pub slices: Vec<(usize, usize)>,
+    /// `(count, chunk base address or 0)` of every anchor.
+    pub anchors: Vec<(usize, usize)>,
+    /// Logical bytes ever appended (since the last clear).
+    pub logical_size: u64,
+    /// Bytes consumed (since the last clear).
+    pub consumed_size: u64,
+    /// Slices consumed (since the last clear).
+    pub consumed_slices: u64,
+    /// `(start, end, bump)` addresses of the arena's current allocation cache.
+    pub cache: Option<(usize, usize, usize)>,
+    /// `(logical end, logical slice index, begin, len)` for in-flight backrefs.
+    pub backrefs: Vec<(u64, u64, usize, usize)>,
+}
